@@ -13,6 +13,7 @@ import TdVerif.Lemmas.C16Tolist
 import TdVerif.Lemmas.C16AssignMain
 import TdVerif.Lemmas.C16ShapeOps
 import TdVerif.Lemmas.C16Permute
+import TdVerif.Lemmas.C16Reshape
 
 namespace TdVerif.Props.C16
 open TdVerif.C16 TdVerif.C16.NT
@@ -183,6 +184,89 @@ theorem permute_commutes (r : NT O) (p : List Nat) (hw : wf r = true) (hp : IsPe
     wf (permute r p) = true ∧ shape (permute r p) = p.map (fun k => (shape r).getD k 0)
     ∧ ∀ c, c.length = p.length → getAt (permute r p) c = getAt r (unperm p c) :=
   permute_spec r p hw hp
+
+/-! ### the reshape family (`_lazy.py:_view`, `NonTensorStack.reshape`, `split` / `chunk`) -/
+
+/-- `shapeop_commutes` (reshape), full strength: for EVERY well-formed entry (any nesting / stack dims) without a zero-size dim
+and EVERY target shape, whichever branch the code takes (flatten of consecutive dims by repeated `unbind`, unflatten by
+repeated `chunk`, or through the flat stack): the result is well formed, has the target shape, and two positions with the
+same row-major rank hold the same object. -/
+theorem reshape_commutes (r : NT O) (s' : Shape) (u : NT O) (hw : wf r = true) (hpos : 0 < prodL (shape r))
+    (hpos' : 0 < prodL s') (h : reshapeNT r s' = .ok u) :
+    wf u = true ∧ shape u = s'
+    ∧ ∀ (c c' : List Nat), inB c (shape r) = true → inB c' s' = true → ravel c (shape r) = ravel c' s' →
+        getAt u c' = getAt r c := by
+  obtain ⟨h1, h2, h3⟩ := reshapeNT_spec r s' u hw hpos hpos' h
+  refine ⟨h1, h2, ?_⟩
+  intro c c' hc hc' he
+  exact h3 c c' hc (by rw [h2]; exact hc') (by rw [h2]; exact he)
+
+/-- … and `reshape` to a shape with the same number of elements never fails (so the statement above is not vacuous and no
+branch of the code is left out) -/
+theorem reshape_total (r : NT O) (s' : Shape) (hw : wf r = true) (hs' : s' ≠ []) (hr : shape r ≠ [])
+    (hpos : 0 < prodL (shape r)) (hprod : prodL s' = prodL (shape r)) : ∃ u, reshapeNT r s' = .ok u :=
+  reshapeNT_total r s' hw hs' hr hpos hprod
+
+/-- `view` (and `flatten` / `unflatten`, which call it): when it does not raise it is row-major too -/
+theorem view_commutes (r : NT O) (s' : Shape) (u : NT O) (hw : wf r = true) (hpos : 0 < prodL (shape r))
+    (hpos' : 0 < prodL s') (h : viewNT r s' = .ok u) :
+    wf u = true ∧ shape u = s'
+    ∧ ∀ (c c' : List Nat), inB c (shape r) = true → inB c' s' = true → ravel c (shape r) = ravel c' s' →
+        getAt u c' = getAt r c := by
+  have key : wf u = true ∧ shape u = s' ∧ RowMajorSame r u := by
+    cases r with
+    | shared o s =>
+      simp only [viewNT] at h
+      split at h
+      · cases h
+        refine ⟨rfl, rfl, ?_⟩
+        intro c c' hc hc' _
+        simp only [shape] at hc hc'
+        rw [getAt_shared, getAt_shared, if_pos hc, if_pos hc']
+      · cases h
+    | stack ms d =>
+      simp only [viewNT] at h
+      cases hv : viewStack (.stack ms d) s' with
+      | none => rw [hv] at h; cases h
+      | some u' =>
+        rw [hv] at h
+        cases h
+        exact viewStack_spec _ _ _ hw hpos hpos' hv
+  obtain ⟨h1, h2, h3⟩ := key
+  refine ⟨h1, h2, ?_⟩
+  intro c c' hc hc' he
+  exact h3 c c' hc (by rw [h2]; exact hc') (by rw [h2]; exact he)
+
+/-- `flatten` of the consecutive dims `i … j` in coordinates: position `k = ravel mid` of the merged dim shows what the
+entry had at `mid` in those dims -/
+theorem flatten_commutes (r : NT O) (i j : Nat) (hw : wf r = true) (hij : i ≤ j) (hj : j < (shape r).length)
+    (hpos : 0 < prodL (((shape r).drop i).take (j + 1 - i))) :
+    wf (flattenDims r i j) = true
+    ∧ shape (flattenDims r i j) = (shape r).take i ++ prodL (((shape r).drop i).take (j + 1 - i)) :: (shape r).drop (j + 1)
+    ∧ ∀ (pre mid post : List Nat), pre.length = i → inB mid (((shape r).drop i).take (j + 1 - i)) = true →
+        (pre ++ mid ++ post).length = (shape r).length →
+        getAt (flattenDims r i j) (pre ++ ravel mid (((shape r).drop i).take (j + 1 - i)) :: post) = getAt r (pre ++ mid ++ post) :=
+  flatten_spec r i j hw hij hj hpos
+
+/-- `split(n, d)` (hence `chunk`): `ceil(len / n)` pieces; piece `p` is well formed, has size `min n (len - p n)` along `d`
+and shows the entry shifted by `p n` along `d` — for every piece index and coordinate, in range or not -/
+theorem split_commutes (r : NT O) (n d : Nat) (hw : wf r = true) (hd : d < (shape r).length) (hn : 0 < n) :
+    (splitNT r n d).length = ceilDiv ((shape r).getD d 0) n
+    ∧ (∀ (p : Nat), p < ceilDiv ((shape r).getD d 0) n → ∃ t, (splitNT r n d)[p]? = some t ∧ wf t = true
+        ∧ shape t = (shape r).set d (min n ((shape r).getD d 0 - p * n)))
+    ∧ ∀ (p : Nat) (c : List Nat), c.length = (shape r).length →
+        ((splitNT r n d)[p]?).bind (fun t => getAt t c)
+          = if c.getD d 0 < n then getAt r (c.set d (c.getD d 0 + p * n)) else none :=
+  split_spec r n d hw hd hn
+
+-- non-vacuity: the three branches of `reshape` on a stack of a shared row and a promoted row
+example : reshapeNT (.stack [.shared "y" [3], .stack [.shared "a" [], .shared "b" [], .shared "c" []] 0] 0 : NT String) [6]
+    = .ok (.stack [.shared "y" [], .shared "y" [], .shared "y" [], .shared "a" [], .shared "b" [], .shared "c" []] 0) := by rfl
+example : (reshapeNT (.stack [.shared "a" [], .shared "b" [], .shared "c" [], .shared "d" [], .shared "e" [], .shared "f" []] 0 : NT String) [2, 3]).toOption.map shape
+    = some [2, 3] := by rfl
+example : ((reshapeNT (.stack [.shared "y" [3], .stack [.shared "a" [], .shared "b" [], .shared "c" []] 0] 0 : NT String) [3, 2]).toOption.bind
+    (fun u => getAt u [1, 1])) = some "a" := by rfl
+example : ravel [1, 1] [3, 2] = 3 ∧ ravel [1, 0] [2, 3] = 3 := by decide
 
 -- `unperm` really is the inverse placement: `unperm [2,0,1] [a,b,c]` puts `a` at dim 2, `b` at dim 0, `c` at dim 1
 example : unperm [2, 0, 1] [7, 8, 9] = [8, 9, 7] := by decide
